@@ -8,6 +8,7 @@
 
 use crate::exec::*;
 use crate::model::{MRead, View};
+use crate::plan::ByteClass;
 use crate::world::*;
 use bytes::Bytes;
 use pearl::{BloomProvider, Key, ReadResult, Storage};
@@ -54,7 +55,7 @@ struct KeyAnswers {
     read: anyhow::Result<ReadResult<Bytes>>,
     contains: anyhow::Result<ReadResult<u64>>,
     /// (deleted, ts, load result: Ok((data, meta ok?)) / Err(kind))
-    all_marker: Result<Vec<(bool, u64, Result<Vec<u8>, String>, Option<BTreeMap<String, Vec<u8>>>)>, String>,
+    all_marker: Result<Vec<(bool, u64, Result<Vec<u8>, String>, Option<BTreeMap<String, Vec<u8>>>, Option<Result<Vec<u8>, String>>)>, String>,
     all: Result<Vec<(bool, u64)>, String>,
     with: Vec<anyhow::Result<ReadResult<Bytes>>>,
     check_filters: Option<bool>,
@@ -206,21 +207,9 @@ where
                                 }
                             }
                             let data = rec.into_data().to_vec();
-                            if let Some(Ok(bytes)) = &data_only {
-                                if bytes != &data {
-                                    world.probe("load_data_disagrees_with_load");
-                                    ctx.violate(&["C05", "C02"], "entry-load-data-mismatch", "Entry::load_data returned other bytes than Entry::load of the same entry", format!("phase={} key={} entry {} ts {} load_data {} load {}", phase, ki, ei, t, short(bytes), short(&data)));
-                                }
-                            }
-                            v.push((d, t, Ok(data), Some(mm)));
+                            v.push((d, t, Ok(data), Some(mm), data_only));
                         }
-                        Err(e) => {
-                            if let Some(Ok(bytes)) = &data_only {
-                                world.probe("load_data_disagrees_with_load");
-                                ctx.violate(&["C05", "C02"], "entry-load-data-mismatch", "Entry::load_data returned bytes although Entry::load of the same entry fails", format!("phase={} key={} entry {} ts {} load_data {} load Err({})", phase, ki, ei, t, short(bytes), err_kind(&e)));
-                            }
-                            v.push((d, t, Err(err_kind(&e)), None))
-                        }
+                        Err(e) => v.push((d, t, Err(err_kind(&e)), None, data_only)),
                     }
                 }
                 Ok(v)
@@ -300,6 +289,17 @@ where
                         return Err(format!("read_all_with_deletion_marker list is {} the ranked list", how));
                     }
                     for (g, r) in got.iter().zip(exp_list.iter()) {
+                        // Entry::load_data (data bytes only): whatever Entry::load says about header or
+                        // metadata, bytes it hands out are the bytes that were written
+                        if let Some(Ok(bytes)) = &g.4 {
+                            let data_altered = ctx.damaged.borrow().iter().any(|(b, o, c)| *b == r.blob && *o == r.offset && *c == ByteClass::Data);
+                            if data_altered {
+                                return Err("Entry::load_data returned the data of a record whose stored data bytes were altered".to_string());
+                            }
+                            if bytes.as_slice() != r.data.as_slice() {
+                                return Err("Entry::load_data returned other bytes than the ranked record".to_string());
+                            }
+                        }
                         match &g.2 {
                             Ok(data) => {
                                 if data.as_slice() != r.data.as_slice() {
@@ -329,7 +329,7 @@ where
             let cause = results.last().and_then(|r| r.clone().err()).unwrap_or_default();
             let exp_desc: Vec<(bool, u64)> = full_view.read_all_with_marker(&kb).iter().map(|r| (r.deleted, r.ts)).collect();
             let got_desc = ans.all_marker.as_ref().map(|g| g.iter().map(|x| (x.0, x.1, x.2.as_ref().map(|d| short(d)).unwrap_or_else(|e| e.clone()))).collect::<Vec<_>>());
-            let altered = cause.contains("other bytes") && full_view.read_all_with_marker(&kb).iter().any(|r| is_damaged(ctx, r));
+            let altered = (cause.contains("other bytes") || cause.contains("were altered")) && full_view.read_all_with_marker(&kb).iter().any(|r| is_damaged(ctx, r));
             let props: Vec<&str> = if altered { vec!["C05"] } else { p_all.clone() };
             ctx.violate(&props, "readall-marker-mismatch", cause, format!("phase={} key={} expected {:?} got {:?}; {}", phase, ki, exp_desc, got_desc, note));
         }
